@@ -47,7 +47,7 @@ structure Ledger where
   price : Nat := 100
   /-- vm.default_deposit -/
   deflt : Nat := 600000000
-  deriving Repr, Inhabited
+  deriving Repr, DecidableEq, Inhabited
 
 inductive Outcome where
   | ok | exec | deposit | funds | overflow | refund
